@@ -34,7 +34,7 @@ META = dict(
     engine="H+T",
     technique="explicit-state BFS over listen/remove/subclass/dispatch histories with a registry reference model and replica probing of every target in every state; preemption-bounded thread-schedule exploration of exec-once dispatch",
     design_ref="DESIGN.md §5 C28",
-    level_text="Sequential: every history (depth <=5 quick / <=7 thorough, canonical-state dedupe, listener-name symmetry reduction) of "
+    level_text="Sequential: every history (depth <=5 quick / <=6 thorough, canonical-state dedupe, listener-name symmetry reduction) of "
     "listen(target, fn, insert/once/named/propagate) / remove / contains / create-subclass / create-instance / dispatch / _join / _update "
     "over class A and the late-created sub-classes B(A), C(B) and their instances is replayed on the real event system; after every step each dispatch "
     "target is fired on a fresh replica and the exact call sequence (listener, positional-or-named arguments) is compared with the "
@@ -46,7 +46,7 @@ META = dict(
     rule="state = canonical registry contents (per-class / per-instance ordered listener lists with flags and once-fired marks, existing "
     "classes/instances); transition = one op replayed on the real event system and on the model; T part: one schedule = one transition",
     assumptions=["single event 'ev(x, y)' on a private Events class", "listeners do not register/remove listeners while running"],
-    bounds=dict(quick="H depth<=5 (canonical-state dedupe); T: gil 2 / ft 1", thorough="H depth<=7; T: gil 3 / ft 2, 3 threads gil 2 / ft 1"),
+    bounds=dict(quick="H depth<=5 (canonical-state dedupe); T: gil 2 / ft 1", thorough="H depth<=6; T: gil 3 / ft 2, 3 threads gil 2 / ft 1"),
 )
 SHARD_TIMEOUT = dict(quick=600, thorough=3000)
 
@@ -559,7 +559,7 @@ def shards(tier, seed):
 
 def run_shard(shard, tier, rec):
     if shard[0] == "seq":
-        depth = 5 if tier == "quick" else 7
+        depth = 5 if tier == "quick" else 6
         m0 = Model()
         # fan-out: the first op partitions the space
         first = m0.enabled()
